@@ -84,10 +84,11 @@ static int ref_parse(int *type, uint64_t *num, const char *name) {
 }
 
 /* an arbitrary NUL-terminated string of at most FN_MAX characters in an exactly fitting heap object */
+#define FN_SYM_MAX 14   /* symbolic names: decimal arithmetic over more digits is out of the SAT solver's reach */
 #define MK_NAME(name) \
-  IN_SIZE(in_len); ASSUME(in_len <= FN_MAX); \
+  IN_SIZE(in_len); ASSUME(in_len <= FN_SYM_MAX); \
   char *name = malloc(in_len + 1); ASSUME(name != NULL); \
-  { size_t i_; for (i_ = 0; i_ < FN_MAX; i_++) ASSUME(i_ >= in_len || name[i_] != 0); } \
+  { size_t i_; for (i_ = 0; i_ < FN_SYM_MAX; i_++) ASSUME(i_ >= in_len || name[i_] != 0); } \
   name[in_len] = 0
 
 /* ------------------------------------------------------------ fn.decode_int */
@@ -134,6 +135,7 @@ void h_parse_examples(void) {
  * parse(basename(build(type, number))) = (type, number), for an arbitrary
  * number and a database name of 0..2 arbitrary characters */
 #define RT_BUF 64
+#define RT_NUM_MAX ((uint64_t)1 << 24)   /* symbolic file numbers (<= 8 digits); the 64-bit boundary values are replayed concretely in fn.rt_examples */
 static const char *rt_setup(char *db) {
   IN_SIZE(in_dblen); ASSUME(in_dblen <= 2);
   ASSUME(in_dblen < 1 || db[0] != 0); ASSUME(in_dblen < 2 || db[1] != 0);
@@ -144,6 +146,7 @@ static const char *rt_setup(char *db) {
 void hname(void) { \
   char db[3], buf[RT_BUF]; ldb_filetype_t t = (ldb_filetype_t)77; uint64_t n = 7; IN_U64(in_num); size_t dl; int ok; \
   rt_setup(db); dl = strlen(db); \
+  ASSUME(in_num < RT_NUM_MAX); \
   ok = builder(buf, sizeof(buf), db, in_num); \
   CHECK(ok == 1, what ": the name fits the buffer"); \
   CHECK(buf[dl] == '/', what ": directory, separator, base name"); \
@@ -169,3 +172,17 @@ RT_FIXED(h_rt_current, ldb_current_filename, LDB_FILE_CURRENT, "CURRENT file nam
 RT_FIXED(h_rt_lock, ldb_lock_filename, LDB_FILE_LOCK, "LOCK file name")
 RT_FIXED(h_rt_info, ldb_info_filename, LDB_FILE_INFO, "info log file name")
 RT_FIXED(h_rt_oldinfo, ldb_oldinfo_filename, LDB_FILE_INFO, "old info log file name")
+
+/* concrete boundary numbers through every numbered builder */
+static void rt_one(uint64_t num) {
+  char buf[RT_BUF]; ldb_filetype_t t; uint64_t n;
+  CHECK(ldb_log_filename(buf, sizeof(buf), "d", num) && ldb_parse_filename(&t, &n, buf + 2) && t == LDB_FILE_LOG && n == num, "log file name round trip (boundary number)");
+  CHECK(ldb_table_filename(buf, sizeof(buf), "d", num) && ldb_parse_filename(&t, &n, buf + 2) && t == LDB_FILE_TABLE && n == num, "table file name round trip (boundary number)");
+  CHECK(ldb_desc_filename(buf, sizeof(buf), "d", num) && ldb_parse_filename(&t, &n, buf + 2) && t == LDB_FILE_DESC && n == num, "MANIFEST file name round trip (boundary number)");
+  CHECK(ldb_temp_filename(buf, sizeof(buf), "d", num) && ldb_parse_filename(&t, &n, buf + 2) && t == LDB_FILE_TEMP && n == num, "temp file name round trip (boundary number)");
+}
+void h_rt_examples(void) {
+  rt_one(1); rt_one(999999); rt_one(1000000); rt_one(0xffffffffu); rt_one((uint64_t)1 << 32);
+  rt_one(UINT64_MAX); rt_one(UINT64_MAX - 1); rt_one(UINT64_MAX / 10); rt_one(UINT64_MAX / 10 + 1);
+  CANARY();
+}
